@@ -91,3 +91,12 @@ Definition v_case (ro_write_attempt static_ok : bool) (ret_static observed : lis
     (args : list ((Z * list int * Z * list int) * (Z * list int * Z * list int))) : Z :=
   if ro_write_attempt then (if static_ok then 3 else 2)
   else v_dynamic_alias static_ok ret_static observed args.
+
+(* one evaluation per driver: 0 :: predicted aliases of the name r  when the frame obligation holds (frame_ret_ok below),
+   1 :: x :: params  when a write through x may reach these parameters, [2] when the loop analysis ran out of fuel *)
+Definition frame_ret (sk : skeleton) (ps : list var) (r : var) : list Z :=
+  match analyze_r default_fuel sk (init_amap ps) with
+  | AOk a => 0 :: map Zpos (lookup a r)
+  | ABad x s => 1 :: Zpos x :: map Zpos s
+  | AFuel => [2]
+  end.
